@@ -284,6 +284,9 @@ type Stack struct {
 	Store   *leveldbstore.LevelDBStore
 	Overlay *overlaydb.OverlayDB
 	Cache   *storage.CacheDB
+	// BetweenIter, when set, runs after an iterator was created and before its First(): reads issued
+	// by the caller between the two must not change what the iterator returns.
+	BetweenIter func()
 }
 
 func NewStack() *Stack {
@@ -522,6 +525,9 @@ func (s *Stack) CheckIter(m *Model, level string, rawPrefix []byte, limit int, r
 		mem, back = m.Overlay, m.Live(LvStore, p)
 	default:
 		it = s.Store.NewIterator(rawPrefix)
+	}
+	if s.BetweenIter != nil {
+		s.BetweenIter()
 	}
 	got, overrun := Collect(it, limit)
 	err := it.Error()
